@@ -1,8 +1,13 @@
 #!/bin/sh
 # Build the framework from files on disk only (offline): the Rust harness against /repo's working tree
-# (hooks on) and the Lean project (model, proofs, driver).
+# (hooks on) and the Lean project (model, proofs of every property, audit tool, driver).
 set -e
 cd "$(dirname "$0")"
 export CARGO_NET_OFFLINE=true
 (cd harness && cargo build --offline)
-(cd lean && lake build XrayModel XrayProofs Props Audit.Tools xmodel)
+TARGETS="XrayModel Audit.Tools xmodel"
+for f in lean/Props/C*.lean; do
+  b=$(basename "$f" .lean)
+  TARGETS="$TARGETS Props.$b"
+done
+(cd lean && lake build $TARGETS)
